@@ -119,6 +119,8 @@ def alphabet(tier):
     A.append(setmsg("D1", "V1", "Text", (("a", "t2"), ("a", "t1"))))
     A.append(setmsg("D1", "V1", "Number", (("a", "2.5"), ("b", "1"), ("a", "1"))))
     A.append(setmsg("D1", "V1", "Switch", (("a", "Off"), ("a", "On"))))
+    # ... and in one definition (the later one is the element's definition)
+    A.append(("defTextVector", (("device", "D1"), ("name", "V1"), ("state", "Ok"), ("perm", "rw")), None, (("defText", (("name", "a"),), "t1"), ("defText", (("name", "b"),), "t2"), ("defText", (("name", "a"),), "t2"))))
     A.append(setmsg("D1", "V2", "Text", (("a", "t2"),)))
     A.append(setmsg("D2", "V1", "Text", (("a", "t2"),), "Busy"))
     A.append(setmsg("D1", "V9", "Text", (("a", "t1"),)))
